@@ -13,6 +13,7 @@ import (
 	"encoding/json"
 	"fmt"
 	"strings"
+	"time"
 
 	stk "github.com/JesseCoretta/go-stackage"
 )
@@ -671,8 +672,9 @@ func genMarshalRT(ctx *Ctx, emit func(any, string)) {
 // family marshaljunk
 
 type JKInput struct {
-	Recv *JNode   `json:"recv,omitempty"` // nil: uninitialised receiver
-	In   []*JNode `json:"in"`
+	Recv  *JNode   `json:"recv,omitempty"` // nil: uninitialised receiver
+	Mutex bool     `json:"mutex,omitempty"` // initialised receiver with its mutex enabled
+	In    []*JNode `json:"in"`
 }
 
 func jkClass(in []*JNode) string {
@@ -706,6 +708,9 @@ func runMarshalJunk(raw json.RawMessage) (*Result, error) {
 			return nil, fmt.Errorf("marshaljunk: the receiver must be a native stack")
 		}
 		r = in.Recv.Build().(stk.Stack)
+		if in.Mutex {
+			r.SetMutex()
+		}
 	}
 	args := []any{}
 	for _, a := range in.In {
@@ -720,15 +725,29 @@ func runMarshalJunk(raw json.RawMessage) (*Result, error) {
 		strOK, unmOK, eqOK = true, true, true
 		u                  = []*JNode{}
 	)
-	func() {
+	// under a watchdog: a receiver with a mutex must not block on itself
+	type mres struct {
+		err   bool
+		panic string
+		did   bool
+	}
+	mdone := make(chan mres, 1)
+	go func() {
+		var o mres
 		defer func() {
 			if e := recover(); e != nil {
-				panicked = true
-				panicText = fmt.Sprint(e)
+				o.did, o.panic = true, fmt.Sprint(e)
 			}
+			mdone <- o
 		}()
-		merr = r.Marshal(args...) != nil
+		o.err = r.Marshal(args...) != nil
 	}()
+	select {
+	case o := <-mdone:
+		merr, panicked, panicText = o.err, o.did, o.panic
+	case <-time.After(20 * time.Second):
+		panicked, panicText = true, "Marshal did not return (blocked on the receiver's own lock?)"
+	}
 	guard := func(ok *bool, f func()) {
 		defer func() {
 			if e := recover(); e != nil {
@@ -789,6 +808,7 @@ func runMarshalJunk(raw json.RawMessage) (*Result, error) {
 	}
 	tag(in.Recv != nil, "recv-init")
 	tag(in.Recv == nil, "recv-zero")
+	tag(in.Mutex, "recv-mutex")
 	tag(panicked, "panic")
 	tag(merr, "error")
 	tag(!merr, "no-error")
@@ -1051,6 +1071,7 @@ func genMarshalJunk(ctx *Ctx, emit func(any, string)) {
 	for _, in := range cat {
 		emit(&JKInput{In: in}, "exhaustive")
 		emit(&JKInput{Recv: &JNode{T: "stack", Kind: "AND", Els: []*JNode{jstr("old")}}, In: in}, "exhaustive")
+		emit(&JKInput{Recv: &JNode{T: "stack", Kind: "AND", Els: []*JNode{jstr("old")}}, Mutex: true, In: in}, "exhaustive")
 	}
 	// exhaustive: every list of length 1..3 over the 10-symbol alphabet
 	// (three symbols are lists, so nesting depth 2), bare and for length <= 2
@@ -1079,7 +1100,8 @@ func genMarshalJunk(ctx *Ctx, emit func(any, string)) {
 		if g.r.Pct(15) {
 			in = []*JNode{top} // Marshal(u) form
 		}
-		emit(&JKInput{Recv: g.receiver(), In: in}, "random")
+		rc := g.receiver()
+		emit(&JKInput{Recv: rc, Mutex: rc != nil && g.r.Pct(35), In: in}, "random")
 	}
 }
 
